@@ -82,7 +82,14 @@ type c04Case struct {
 	// squashed unpacking is a different code path and is decided against the final overlay.
 	// Only honoured for a case that really has an absolute header name.
 	UnpackOnly bool `json:"unpack_only,omitempty"`
+	// DirForm is how the target directory is handed to UnpackSquashed: "" its cleaned
+	// absolute path, "slash" with a trailing separator, "dots" with "/./" and "//" inside,
+	// "relative" / "dot_relative" relative to the working directory ("t", "./t"), "symlink"
+	// through a symbolic link to its parent directory. All of them name the same directory.
+	DirForm string `json:"dir_form,omitempty"`
 }
+
+var c04DirForms = []string{"", "", "", "slash", "dots", "relative", "dot_relative", "symlink"}
 
 // c04AbsName reports whether the tar header name of the entry is absolute.
 func c04AbsName(e tarimg.Entry) bool { return strings.HasPrefix(e.TarName(), "/") }
@@ -1220,7 +1227,7 @@ func propC04(cs c04Case) (ev.Outcome, error) {
 		if n := len(eff.Image.Layers); n > 0 {
 			final = overlay.Views(eff.Image.Layers)[n-1]
 		}
-		return out, c04CheckUnpack(cs, &loaded{V1: v}, final, requirer, reqSet)
+		return out, c04Unpack(&out, cs, &loaded{V1: v}, final, requirer, reqSet)
 	}
 	ld, err := loadImageLimit(cs.Image, requirer, c04Depth, cs.maxFileBytes())
 	defer ld.Close()
@@ -1271,18 +1278,67 @@ func propC04(cs c04Case) (ev.Outcome, error) {
 	if n := len(eff.Image.Layers); n > 0 {
 		final = overlay.Views(eff.Image.Layers)[n-1]
 	}
-	if uerr := c04CheckUnpack(cs, ld, final, requirer, reqSet); uerr != nil {
+	if uerr := c04Unpack(&out, cs, ld, final, requirer, reqSet); uerr != nil {
 		return out, uerr
 	}
 	return out, nil
 }
 
+// c04Unpack runs the unpack comparison, records the form of the target directory and names
+// it in the failure.
+func c04Unpack(out *ev.Outcome, cs c04Case, ld *loaded, final overlay.View, requirer require.FileRequirer, reqSet map[string]bool) error {
+	form := cs.DirForm
+	if form == "" {
+		form = "cleaned_absolute"
+	}
+	out.Classes = append(out.Classes, "unpack_dir_form:"+form)
+	if uerr := c04CheckUnpack(cs, ld, final, requirer, reqSet); uerr != nil {
+		if cs.DirForm != "" {
+			return fmt.Errorf("%w (target directory passed in the form %q)", uerr, cs.DirForm)
+		}
+		return uerr
+	}
+	return nil
+}
+
 func c04CheckUnpack(cs c04Case, ld *loaded, final overlay.View, requirer require.FileRequirer, reqSet map[string]bool) error {
-	dir, err := os.MkdirTemp("", "c04-unpack-*")
+	top, err := os.MkdirTemp("", "c04-unpack-*")
 	if err != nil {
 		return fmt.Errorf("harness: %w", err)
 	}
-	defer os.RemoveAll(dir)
+	defer os.RemoveAll(top)
+	if top, err = filepath.EvalSymlinks(top); err != nil {
+		return fmt.Errorf("harness: %w", err)
+	}
+	dir := filepath.Join(top, "real", "t")
+	if err := os.MkdirAll(dir, 0o755); err != nil {
+		return fmt.Errorf("harness: %w", err)
+	}
+	arg := dir
+	switch cs.DirForm {
+	case "slash":
+		arg = dir + "/"
+	case "dots":
+		arg = top + "/./real//t"
+	case "relative", "dot_relative":
+		wd, err := os.Getwd()
+		if err != nil {
+			return fmt.Errorf("harness: %w", err)
+		}
+		if err := os.Chdir(filepath.Join(top, "real")); err != nil {
+			return fmt.Errorf("harness: %w", err)
+		}
+		defer os.Chdir(wd)
+		arg = "t"
+		if cs.DirForm == "dot_relative" {
+			arg = "./t"
+		}
+	case "symlink":
+		if err := os.Symlink("real", filepath.Join(top, "link")); err != nil {
+			return fmt.Errorf("harness: %w", err)
+		}
+		arg = filepath.Join(top, "link", "t")
+	}
 	ucfg := unpack.DefaultUnpackerConfig().WithRequirer(requirer)
 	if cs.SizeLimit > 0 {
 		// the same per-file limit as the views (the generator keeps dropped files strictly
@@ -1293,8 +1349,8 @@ func c04CheckUnpack(cs c04Case, ld *loaded, final overlay.View, requirer require
 	if err != nil {
 		return fmt.Errorf("harness: NewUnpacker: %w", err)
 	}
-	if err := u.UnpackSquashed(dir, ld.V1); err != nil {
-		return fmt.Errorf("UnpackSquashed fails on a well-formed image: %w", err)
+	if err := u.UnpackSquashed(arg, ld.V1); err != nil {
+		return fmt.Errorf("UnpackSquashed fails on a well-formed image (directory passed as %q): %w", arg, err)
 	}
 	disk := map[string]string{}
 	werr := filepath.WalkDir(dir, func(p string, d fs.DirEntry, err error) error {
@@ -1850,6 +1906,7 @@ func genC04(col *ev.Collector) func(t *rapid.T) c04Case {
 			cs.SizeLimitSlack = rapid.IntRange(1, 8).Draw(t, "size_limit_slack")
 		}
 		cs.UnpackOnly = unpackOnly && cs.hasAbsName()
+		cs.DirForm = rapid.SampledFrom(c04DirForms).Draw(t, "dir_form")
 		return cs
 	}
 }
